@@ -264,11 +264,18 @@ func c02ValueLists() [][]timing.Frac {
 		}
 	}
 	r = append(r, []timing.Frac{fr(1, 3), fr(1, 3), fr(1, 3)}, []timing.Frac{fr(1, 1920), fr(1, 1920)}, []timing.Frac{fr(1, 7), fr(1, 7)})
+	// pairwise coprime denominators whose product exceeds 64 bits (exact arithmetic in machine words overflows)
+	r = append(r, []timing.Frac{fr(999982, 999983), fr(999978, 999979), fr(999960, 999961), fr(999958, 999959)})
+	var primes []timing.Frac
+	for _, p := range []uint64{251, 257, 263, 269, 271, 277, 281, 283, 293, 307} {
+		primes = append(primes, fr(100, p))
+	}
+	r = append(r, primes)
 	return r
 }
 
 func runC02(e *Env) {
-	e.R.Rule = "all histories up to the stated length over {chord C, chord G7, rest} x 27 duration lists (unit and non-unit numerators, denominators not dividing 960, exactly-half-tick values, several fractions per instance), on 1 and 3 tracks; note-on/off ticks compared with exact rational arithmetic, either neighbour on exact ties; distinct = distinct history; non-trivial = contains a fractional or multi-value duration or a rest"
+	e.R.Rule = "all histories up to the stated length over {chord C, chord G7, rest} x 29 duration lists (unit and non-unit numerators, denominators not dividing 960, exactly-half-tick values, several fractions per instance), on 1 and 3 tracks; note-on/off ticks compared with exact rational arithmetic, either neighbour on exact ties; distinct = distinct history; non-trivial = contains a fractional or multi-value duration or a rest"
 	e.R.Assume("reference: math/big rationals; T read from the file header; same-tick order only constrained per track (release before strike of the same key)")
 	e.R.Exclude("total length >= 2^28 ticks; chords with a pitch doubled inside the chord (strike-before-release is then not observable per key)")
 	m, err := newModel(e)
